@@ -22,6 +22,8 @@ Record dir_node := mkDirNode { dn_name : str; dn_digest : digest }.
 Record link_node := mkLinkNode { ln_name : str; ln_target : str }.
 Record dir_msg := mkDirMsg { dm_files : list file_node; dm_dirs : list dir_node; dm_links : list link_node }.
 Record tree_msg := mkTreeMsg { tm_root : dir_msg; tm_children : list dir_msg }.
+(* internal/proto/schema/target_result.proto: FileOutput (the path is fixed by the target definition) *)
+Record file_msg := mkFileMsg { fm_digest : digest; fm_exec : bool }.
 
 (* ------------------------------------------------------------------ generic helpers *)
 Section SortBy.
@@ -205,6 +207,29 @@ Inductive dest_state :=
 Definition wf_dest (d : dest_state) : Prop :=
   match d with DDir es => wf_tree (Dir es) | _ => True end.
 
+(* ------------------------------------------------------------------ the error channel of Load as
+   a transition system (dir_output_handler.go: errChan := make(chan error, 1), and in every download
+   goroutine  select { case errChan <- err: default: }  before its deferred waitGroup.Done()).
+   State: sends still to be attempted by failing downloaders, buffered errors, capacity. *)
+Record chan_state := mkChan { ch_pending : nat; ch_buffered : nat; ch_cap : nat }.
+(* the only step before Wait returns: a pending sender puts its error into a free buffer slot, or,
+   the buffer being full, takes the default branch and drops it.  Either way it is through. *)
+Definition chan_step (s : chan_state) : option chan_state :=
+  match ch_pending s with
+  | 0 => None
+  | S p => if Nat.ltb (ch_buffered s) (ch_cap s) then Some (mkChan p (S (ch_buffered s)) (ch_cap s))
+           else Some (mkChan p (ch_buffered s) (ch_cap s))
+  end.
+(* Wait returns only when no download goroutine is left, i.e. no sender is pending *)
+Definition chan_released (s : chan_state) : bool := Nat.eqb (ch_pending s) 0.
+Fixpoint chan_run (fuel : nat) (s : chan_state) : chan_state :=
+  match fuel with
+  | 0 => s
+  | S f => match chan_step s with Some s' => chan_run f s' | None => s end
+  end.
+(* make(chan error, 1) *)
+Definition err_chan_cap : nat := 1.
+
 Section Model.
   Variable H : str -> str.               (* hashing.HashBytes / Hasher.SumString: xxh3 or sha256, hex *)
   Variable ser_dir : dir_msg -> str.     (* proto.MarshalOptions{Deterministic}.Marshal of a gen.Directory *)
@@ -354,18 +379,20 @@ Section Model.
 
   (* Load after the tree blob has been read: RemoveAll, MkdirAll, recursion, then
        waitGroup.Wait(); close(errChan); first error wins.
-     errChan has capacity len(tree.Children); every failing download goroutine performs one send
-     BEFORE its deferred waitGroup.Done(); nobody receives until Wait has returned.  So with k
-     failing downloads the first cap sends fill the buffer, and if k > cap the remaining senders
-     block for ever and so does Wait: the call never returns.  An error returned by the recursion
-     itself is returned at once, without waiting. *)
+     Every failing download goroutine attempts one NON-BLOCKING send into errChan (capacity 1) before
+     its deferred waitGroup.Done(); nobody receives until Wait has returned.  The outcome is read off
+     the channel system above, run from k pending senders and an empty buffer: Wait returns iff no
+     sender is left pending (Stuck otherwise -- proved impossible in Tree_proofs.v), and then the
+     call returns the buffered error if there is one.  An error returned by the recursion itself
+     is returned at once, without waiting. *)
   Definition load_tree_msg (maxdepth : nat) (m : tree_msg) (st : cas) : result node :=
     let cm := map (fun c => (child_key c, c)) (tm_children m) in
     match load_dir maxdepth cm st (tm_root m) with
     | None => Error
     | Some (es, failed) =>
-        if Nat.eqb failed 0 then Done (Dir es)
-        else if Nat.leb failed (length (tm_children m)) then Error
+        let s := chan_run failed (mkChan failed 0 err_chan_cap) in
+        if chan_released s then
+          if Nat.eqb (ch_buffered s) 0 then Done (Dir es) else Error
         else Stuck
     end.
 
@@ -390,7 +417,7 @@ Section Model.
     | _ => fetch_tree maxdepth ref st   (* RemoveAll + MkdirAll(dirPath) create whatever is missing *)
     end.
 
-  (* number of failing downloads / channel capacity, for the guards of C04 *)
+  (* number of failing downloads (each attempts one send into errChan) *)
   Definition load_failures (maxdepth : nat) (m : tree_msg) (st : cas) : option nat :=
     match load_dir maxdepth (map (fun c => (child_key c, c)) (tm_children m)) st (tm_root m) with
     | None => None
@@ -403,55 +430,38 @@ Section Model.
     forall f, In f (dm_files d) -> cas_get st (d_hash (fn_digest f)) <> None.
 
   (* ---------------- file outputs: file_output_handler.go *)
-  (* Write: digest = HashFile, CAS write, FileOutput{path, digest}.  The mode is not looked at:
-     FileOutput.is_executable exists in the schema and nothing sets or reads it. *)
-  Definition file_write (content : str) (exec : bool) (st : cas) : cas * digest :=
-    (cas_put (H content) content st, dig content).
+  (* Write: digest = HashFile, CAS write, FileOutput{path, digest, is_executable = mode&0111 != 0}. *)
+  Definition file_write (content : str) (exec : bool) (st : cas) : cas * file_msg :=
+    (cas_put (H content) content st, mkFileMsg (dig content) exec).
 
-  (* Load: nothing to do if the file at the path hashes to the digest; else CAS read,
-     MkdirAll(parent) (since bb649a3; before, a missing parent made os.Create fail),
-     os.Create(path) (directory at the path => error; existing file => truncated and its mode
-     kept; new file => 0666 &^ umask, never executable), copy. *)
-  Definition file_load (d : digest) (st : cas) (dest : dest_state) : result node :=
+  (* Load: if the file at the path hashes to the digest the content stays and only the exec bit is
+     brought to the recorded one (Stat; Chmod 0644|0755 when it differs); else CAS read,
+     MkdirAll(parent) (since bb649a3), os.Create(path) (directory at the path => error; existing
+     file => truncated), copy, Chmod 0644|0755 from is_executable. *)
+  Definition file_load (m : file_msg) (st : cas) (dest : dest_state) : result node :=
     match dest with
-    | DFile c x =>
-        if str_eqb (H c) (d_hash d) then Done (File c x)
-        else match cas_get st (d_hash d) with
-             | Some b => Done (File b x)
+    | DFile c _ =>
+        if str_eqb (H c) (d_hash (fm_digest m)) then Done (File c (fm_exec m))
+        else match cas_get st (d_hash (fm_digest m)) with
+             | Some b => Done (File b (fm_exec m))
              | None => Error
              end
     | DAbsent | DParentAbsent =>
-        match cas_get st (d_hash d) with
-        | Some b => Done (File b false)
+        match cas_get st (d_hash (fm_digest m)) with
+        | Some b => Done (File b (fm_exec m))
         | None => Error
         end
     | DDir _ => Error
     end.
 
-  (* the exec bit a file restore ends with: whatever the path had before, never the cached one *)
+  (* the exec bit found at the path before a restore (what a restore ended with before
+     FileOutput.is_executable was recorded; kept for the driver's report) *)
   Definition file_restore_exec (dest : dest_state) : bool :=
     match dest with DFile _ x => x | _ => false end.
+  (* FileOutputHandler.Load does not clear the path: a directory sitting there makes os.Create fail *)
   Definition file_restore_possible (dest : dest_state) : bool :=
     match dest with DDir _ => false | _ => true end.
 End Model.
-
-(* ------------------------------------------------------------------ the error channel of Load as
-   a transition system (what the Stuck clause of load_tree_msg abstracts).
-   State: sends still to be attempted by failing downloaders, buffered errors, capacity. *)
-Record chan_state := mkChan { ch_pending : nat; ch_buffered : nat; ch_cap : nat }.
-(* the only step before Wait returns: a pending sender puts its error into a free buffer slot *)
-Definition chan_step (s : chan_state) : option chan_state :=
-  match ch_pending s with
-  | 0 => None
-  | S p => if Nat.ltb (ch_buffered s) (ch_cap s) then Some (mkChan p (S (ch_buffered s)) (ch_cap s)) else None
-  end.
-(* Wait returns only when no download goroutine is left, i.e. no sender is pending *)
-Definition chan_released (s : chan_state) : bool := Nat.eqb (ch_pending s) 0.
-Fixpoint chan_run (fuel : nat) (s : chan_state) : chan_state :=
-  match fuel with
-  | 0 => s
-  | S f => match chan_step s with Some s' => chan_run f s' | None => s end
-  end.
 
 (* ------------------------------------------------------------------ concrete injective encoders
    (stand-ins for the hash and for protobuf, used for execution only: the harness compares
